@@ -379,6 +379,17 @@ func init() {
 		}
 		return ex.b.I64(-1)
 	})
+	reg("(*regexp.Regexp).SubexpNames", func(ex *Exec, fr *frame, pos token.Pos, args []value) value {
+		rx := ex.regexOf(args[0])
+		out := make([]value, len(rx.names))
+		for i, n := range rx.names {
+			out[i] = ex.strConst(n)
+		}
+		return out
+	})
+	reg("(*regexp.Regexp).NumSubexp", func(ex *Exec, fr *frame, pos token.Pos, args []value) value {
+		return ex.b.I64(int64(ex.regexOf(args[0]).ncap))
+	})
 	reg("(*regexp.Regexp).String", func(ex *Exec, fr *frame, pos token.Pos, args []value) value {
 		return ex.strConst(ex.regexOf(args[0]).pattern)
 	})
